@@ -205,6 +205,8 @@ def drawing(model, tr, xlim=None, ylim=None):
 def run_assemble(inp):
     d, Tm = drawing(inp["model"], inp["transform"], inp.get("xlim"), inp.get("ylim"))
     try:
+        if not all(hasattr(d, m_) for m_ in ("get_circle_arcpath", "get_straight_arcpath", "get_polygon_arcpath", "preprocess_object")):
+            return {"skip": "the per-edge helpers of the drawing class are not available"}       # not part of the public contract
         poly = d.preprocess_object(make_poly(inp))[0]
         segs = poly.get_edges()
         centers, radii, thetas = segs.circle_parameters(model=d.model)
@@ -231,7 +233,7 @@ def _has_nan(obs):
 
 
 def lean_assemble(inp, obs):
-    if "exc" in obs or _has_nan(obs):
+    if "exc" in obs or "skip" in obs or _has_nan(obs):
         return []        # a vertex at the half-plane's point at infinity has NaN coordinates: not representable exactly
     pcs = [{"verts": [_qpt(v) for v in pc["verts"]], "codes": pc["codes"], "p1": _qpt(pc["p1"]), "p2": _qpt(pc["p2"])} for pc in obs["pieces"]]
     ops = [{"op": "c19.assemble", "tau2": Q.qs(F(TAU) * F(TAU)), "pieces": pcs}]
@@ -241,16 +243,54 @@ def lean_assemble(inp, obs):
     return ops
 
 
+def geometric_path(verts, codes, tau=TAU):
+    """the path as a sequence of drawn pieces: ('L', p0, p1) / ('C', p0, c1, c2, p3); corner joins shorter than the
+    library's own distance threshold (zero-length LINETOs, or none at all) are not part of the geometry"""
+    verts = np.asarray(verts, float)
+    segs, i, cur = [], 0, None
+    while i < len(codes):
+        c = codes[i]
+        if c == 1:
+            cur = verts[i]; i += 1
+        elif c == 2:
+            if np.linalg.norm(verts[i] - cur) > tau:
+                segs.append(("L", cur, verts[i]))
+            cur = verts[i]; i += 1
+        elif c == 4:
+            segs.append(("C", cur, verts[i], verts[i + 1], verts[i + 2]))
+            cur = verts[i + 2]; i += 3
+        else:
+            raise ValueError("unexpected path code %r" % c)
+    return segs
+
+
+def same_geometry(a, b, tau=TAU):
+    if len(a) != len(b):
+        return False
+    for x, y in zip(a, b):
+        if x[0] != y[0] or len(x) != len(y):
+            return False
+        # a piece may start at the end of the previous piece or at its own first vertex (they agree within the threshold)
+        if np.linalg.norm(x[1] - y[1]) > tau:
+            return False
+        for u, v in zip(x[2:], y[2:]):
+            if np.linalg.norm(u - v) > 1e-9 * (1 + np.linalg.norm(v)):
+                return False
+    return True
+
+
 def judge_assemble(inp, obs, lr):
     if "exc" in obs:
         return {"expected": "polygon path", "observed": obs, "tags": {"exc": obs["exc"], "model": inp["model"]}, "property_failure": True}
-    if _has_nan(obs):
+    if "skip" in obs or _has_nan(obs):
         return None
     r = lr[0]
     if "err" in r:
         return {"expected": "model answer", "observed": r, "tags": {"driver_err": r["err"]}}
     mv = [[float(F(x)) for x in v] for v in r["ok"]["verts"]]
-    if r["ok"]["codes"] != obs["codes"] or len(mv) != len(obs["verts"]) or not np.array_equal(np.array(mv), np.array(obs["verts"])):
+    # compared as GEOMETRY (the drawn pieces in order), not as raw vertex / code arrays: zero-length corner joins are free
+    if obs["codes"].count(1) != 1 or obs["codes"][0] != 1 or \
+            not same_geometry(geometric_path(mv, r["ok"]["codes"]), geometric_path(obs["verts"], obs["codes"])):
         return {"expected": {"codes": r["ok"]["codes"], "nverts": len(mv)}, "observed": {"codes": obs["codes"], "nverts": len(obs["verts"])},
                 "tags": {"what": "assembled path", "model": inp["model"], "kind": inp["kind"]}}
     for res, k in zip(lr[1:], obs["kinds"]):
